@@ -1241,3 +1241,44 @@ mod test {
         }
     }
 }
+
+/// Access to crate-private functions for the external verification harness.
+/// Compiled only with `RUSTFLAGS="--cfg glass_easel_verif"`.
+#[cfg(glass_easel_verif)]
+pub mod verif_hooks {
+    use crate::output::StyleSheetOutput;
+    use crate::step::StepToken;
+    use cssparser::Token;
+
+    pub fn output_new(path: &str, source_css: &str) -> StyleSheetOutput {
+        StyleSheetOutput::new(path, source_css)
+    }
+    pub fn append_raw(out: &mut StyleSheetOutput, s: &str) {
+        out.append_raw(s)
+    }
+    pub fn append_token(
+        out: &mut StyleSheetOutput,
+        token: Token,
+        line: u32,
+        utf16_col: u32,
+        src: Option<Token>,
+    ) {
+        let position = crate::error::Position { line, utf16_col };
+        out.append_token(StepToken::wrap(token, position), src)
+    }
+    pub fn append_token_space_preserved(
+        out: &mut StyleSheetOutput,
+        token: Token,
+        line: u32,
+        utf16_col: u32,
+        src: Option<Token>,
+    ) {
+        let position = crate::error::Position { line, utf16_col };
+        out.append_token_space_preserved(StepToken::wrap(token, position), src)
+    }
+    pub fn output_string(out: &StyleSheetOutput) -> String {
+        let mut s = String::new();
+        out.write_str(&mut s).unwrap();
+        s
+    }
+}
